@@ -549,7 +549,7 @@ func (db *SpecDB) LoadFile(path string) error {
 	return nil
 }
 
-var ufunRe = regexp.MustCompile(`^([A-Za-z_][A-Za-z0-9_]*)\s*\(([^)]*)\)\s*(int|bool)\s*$`)
+var ufunRe = regexp.MustCompile(`^([A-Za-z_][A-Za-z0-9_]*)\s*\(([^)]*)\)\s*([A-Za-z0-9_.]+)\s*$`)
 
 var labelRe = regexp.MustCompile(`^\[([A-Za-z0-9_.\-]+)\]\s*(.*)$`)
 
